@@ -558,19 +558,65 @@ def set_keys_like(sch, old, new):
     return new  # mutate() already keeps the key sequence of keyed collections below the written field
 
 
+def gen_basic(rng):
+    """small cases first (they give the smallest replays): two or three readers, one or two
+    writes, on a populated store; every kind of relation between written and read path"""
+    init = rich_init(rng)
+    chains = all_chains(init)
+    ws = [c for c in chains if writable(c, init)]
+    for w in ws:
+        rel = [c for c in chains if related(c, w)]
+        unrel = [c for c in chains if not related(c, w)]
+        readers = rng.sample(rel, min(len(rel), 2)) + rng.sample(unrel, min(len(unrel), 2))
+        rng.shuffle(readers)
+        j, sch, v = reach(init, w)
+        new = mutate_same_shape(rng, sch, v)
+        yield mk(init, readers, [[0, w, new]], [], [[[], []]], "basic")
+
+
+def gen_keyed_small(rng):
+    """short keyed histories: change the collection once or twice, write to one item, report"""
+    init = rich_init(rng)
+    fld = rng.choice([[F(4)], [F(1), F(3)]])
+    tree = init
+    cur = reach(tree, fld)[2]
+    readers = [fld + [K(it[0])] + rng.choice([[], [F(1)], [F(2), F(0)]]) for it in cur]
+    steps = []
+    if rng.random() < 0.5:
+        steps.append([3, fld, []])
+    for _ in range(rng.randint(1, 3)):
+        cur = reach(tree, fld)[2]
+        new = keyed_change(rng, cur, rng.choice(["insert", "remove", "reorder", "insert"]))
+        steps.append([0, fld, new])
+        tree = set_at(tree, fld, new)
+    cur = reach(tree, fld)[2]
+    if cur:
+        it = rng.choice(cur)
+        w = fld + [K(it[0])] + rng.choice([[F(1)], [F(2), F(1)], []])
+        j, sch, v = reach(tree, w)
+        steps.append([0, w, mutate_same_shape(rng, sch, v)])
+    steps.append([3, fld, []])
+    return mk(init, readers, steps, [], rnd_orders(rng, len(steps)), "keyed")
+
+
 def generate(rng, tier):
     quick = tier == "quick"
-    for _ in range(3 if quick else 25):
+    for _ in range(2 if quick else 12):
+        for it in gen_basic(rng):
+            yield it
+    for _ in range(300 if quick else 3000):
+        yield gen_keyed_small(rng)
+    for _ in range(2500 if quick else 30000):
+        yield gen_random(rng, rng.randint(2, 9))
+    for _ in range(1500 if quick else 20000):
+        yield gen_keyed(rng, rng.randint(4, 12))
+    for _ in range(700 if quick else 8000):
+        yield gen_keyed(rng, rng.randint(4, 12), exact=True)
+    for _ in range(700 if quick else 8000):
+        yield gen_patch(rng, rng.randint(2, 6))
+    for _ in range(6 if quick else 60):
         for it in gen_allpairs(rng):
             yield it
-    for _ in range(700 if quick else 12000):
-        yield gen_random(rng, rng.randint(2, 9))
-    for _ in range(500 if quick else 9000):
-        yield gen_keyed(rng, rng.randint(4, 12))
-    for _ in range(250 if quick else 4000):
-        yield gen_keyed(rng, rng.randint(4, 12), exact=True)
-    for _ in range(250 if quick else 4000):
-        yield gen_patch(rng, rng.randint(2, 6))
 
 
 # ------------------------------------------------------------------------------------------ checks
